@@ -117,9 +117,258 @@ mod vh_exec {
             }
         };
     }
+    #[kani::proof]
+    #[kani::stub(crate::popen::get_standard_stream, gss)]
+    #[kani::stub(crate::posix::fcntl, crate::mk::fcntl_model)]
+    #[kani::stub(std::env::var_os, crate::posix::vh_posix::var_os_model)]
+    fn h_adapter_stdout_c() {
+        mk::link_model();
+        unsafe {
+            mk::reset();
+            mk::init_std_fds();
+            mp::AUTO_STATUS = true;
+            mp::AT_BLOCKING_WAIT = Some(blocking_wait_oracle);
+            let r = Exec::cmd("/p").stream_stdout();
+            match r {
+                Ok(a) => {
+                    kani::cover!(true, "COVER/adapter-created");
+                    drop(a);
+                }
+                Err(x) => std::mem::forget(x),
+            }
+            after_handle_gone(false);
+        }
+    }
     adapter_harness!(h_adapter_stdout, 0);
     adapter_harness!(h_adapter_stderr, 1);
     adapter_harness!(h_adapter_stdin, 2);
     adapter_harness!(h_adapter_join, 3);
     adapter_harness!(h_adapter_popen, 4);
+
+    // ------------------------------------------------------------------
+    // C16: the builder as ordered edits on a plain command description
+    // (no process is started: these harnesses inspect the accumulated Exec)
+    // ------------------------------------------------------------------
+    use std::os::unix::ffi::{OsStrExt, OsStringExt};
+
+    /// model of the parent's environment seen by ensure_env: A=0
+    pub fn current_env_model() -> Vec<(OsString, OsString)> {
+        vec![(OsString::from("A"), OsString::from("0"))]
+    }
+
+    pub fn one(b: u8) -> OsString {
+        OsString::from_vec(vec![b])
+    }
+
+    pub fn key(second: bool) -> u8 {
+        if second {
+            b'B'
+        } else {
+            b'A'
+        }
+    }
+
+    /// effective value of `k` in an env list: the last entry for that name
+    pub fn effective(env: &Option<Vec<(OsString, OsString)>>, k: u8, inherited: Option<u8>) -> Option<u8> {
+        match env {
+            None => inherited,
+            Some(v) => {
+                let mut r = None;
+                let mut i = 0;
+                while i < 6 {
+                    if i < v.len() {
+                        let kb = v[i].0.as_bytes();
+                        if kb.len() == 1 && kb[0] == k {
+                            let vb = v[i].1.as_bytes();
+                            r = Some(if vb.len() == 1 { vb[0] } else { 0 });
+                        }
+                    }
+                    i += 1;
+                }
+                r
+            }
+        }
+    }
+
+    /// One environment edit, concrete in kind and name (a symbolic kind/name makes
+    /// the Vec lengths symbolic and the SAT back end runs out of memory even at
+    /// 94 k steps, measured), symbolic in value; updates the reference cells.
+    pub fn env_op(e: Exec, op: u8, second: bool, ra: &mut Option<u8>, rb: &mut Option<u8>) -> Exec {
+        let k = key(second);
+        let v: u8 = kani::any();
+        kani::assume(v != 0);
+        if op == 0 {
+            if second { *rb = Some(v) } else { *ra = Some(v) }
+            e.env(one(k), one(v))
+        } else if op == 1 {
+            if second { *rb = Some(v) } else { *ra = Some(v) }
+            e.env_extend(&[(one(k), one(v))])
+        } else if op == 2 {
+            if second { *rb = None } else { *ra = None }
+            e.env_remove(one(k))
+        } else {
+            *ra = None;
+            *rb = None;
+            e.env_clear()
+        }
+    }
+
+    pub fn env_seq(ops: [(u8, bool); 3]) {
+        let mut e = Exec::cmd("c");
+        let mut ra: Option<u8> = Some(b'0'); // inherited A=0
+        let mut rb: Option<u8> = None;
+        e = env_op(e, ops[0].0, ops[0].1, &mut ra, &mut rb);
+        e = env_op(e, ops[1].0, ops[1].1, &mut ra, &mut rb);
+        e = env_op(e, ops[2].0, ops[2].1, &mut ra, &mut rb);
+        let ga = effective(&e.config.env, b'A', Some(b'0'));
+        let gb = effective(&e.config.env, b'B', None);
+        assert!(ga == ra, "C16/env-edits-in-order: after a sequence of env/env_extend/env_remove/env_clear calls the effective value of an inherited variable differs from the ordered-edits model");
+        assert!(gb == rb, "C16/env-edits-in-order: after a sequence of env edits the effective value of a new variable differs from the ordered-edits model");
+        std::mem::forget(e);
+    }
+
+    macro_rules! env_harness {
+        ($name:ident, $ops:expr) => {
+            #[kani::proof]
+            #[kani::stub(crate::popen::PopenConfig::current_env, current_env_model)]
+            fn $name() {
+                env_seq($ops)
+            }
+        };
+    }
+    // remove-then-set, set-twice-then-remove, clear-then-extend, duplicate names across calls,
+    // remove inherited then set other, set / clear / set
+    env_harness!(h_env_rm_set, [(2, false), (0, false), (0, true)]);
+    env_harness!(h_env_set_set_rm, [(0, true), (1, true), (2, true)]);
+    env_harness!(h_env_clear_ext, [(0, false), (3, false), (1, true)]);
+    env_harness!(h_env_dup, [(0, false), (1, false), (0, false)]);
+    env_harness!(h_env_rm_other, [(2, false), (0, true), (2, true)]);
+    env_harness!(h_env_set_clear_set, [(0, true), (3, false), (0, false)]);
+
+    /// arguments appear in the order added: arg, args, arg with symbolic values
+    #[kani::proof]
+    fn h_build_args() {
+        let x: u8 = kani::any();
+        let y: u8 = kani::any();
+        let z: u8 = kani::any();
+        let w: u8 = kani::any();
+        kani::assume(x != 0 && y != 0 && z != 0 && w != 0);
+        let e = Exec::cmd("c").arg(one(x)).args(&[one(y), one(z)]).arg(one(w));
+        let want = [x, y, z, w];
+        assert!(e.args.len() == 4, "C16/args-in-order: the number of accumulated arguments differs from the number added");
+        let mut i = 0;
+        while i < 4 {
+            let b = e.args[i].as_bytes();
+            assert!(b.len() == 1 && b[0] == want[i], "C16/args-in-order: arguments do not appear in the order they were added");
+            i += 1;
+        }
+        assert!(e.command.as_bytes() == b"c", "C16/command-kept: the command changed while adding arguments");
+        std::mem::forget(e);
+    }
+
+    /// Exec::shell passes its string to the platform shell as one single argument
+    #[kani::proof]
+    fn h_shell() {
+        let a: u8 = kani::any();
+        let b: u8 = kani::any();
+        kani::assume(a != 0 && b != 0);
+        let e = Exec::shell(OsString::from_vec(vec![a, b]));
+        assert!(e.command.as_bytes() == b"sh", "C16/shell-command: Exec::shell does not run the platform shell");
+        assert!(e.args.len() == 2, "C16/shell-single-argument: Exec::shell does not pass exactly the option and ONE argument");
+        assert!(e.args[0].as_bytes() == b"-c", "C16/shell-single-argument: the shell option is not -c");
+        let s = e.args[1].as_bytes();
+        assert!(s.len() == 2 && s[0] == a && s[1] == b, "C16/shell-single-argument: the command string is not passed verbatim as one argument");
+        std::mem::forget(e);
+    }
+
+    /// cloning yields an independent equivalent command
+    #[kani::proof]
+    #[kani::stub(crate::popen::PopenConfig::current_env, current_env_model)]
+    fn h_clone() {
+        let x: u8 = kani::any();
+        let v: u8 = kani::any();
+        kani::assume(x != 0 && v != 0);
+        let e = Exec::cmd("c").arg(one(x)).env(one(b'B'), one(v)).stdout(Redirection::Pipe).detached();
+        let c = e.clone();
+        assert!(c.command.as_bytes() == b"c" && c.args.len() == 1 && c.args[0].as_bytes()[0] == x, "C16/clone-equivalent: the clone's command line differs");
+        assert!(effective(&c.config.env, b'B', None) == Some(v) && effective(&c.config.env, b'A', Some(b'0')) == Some(b'0'), "C16/clone-equivalent: the clone's environment differs");
+        assert!(c.config.detached, "C16/clone-equivalent: the clone lost the detached flag");
+        let is_pipe = match c.config.stdout { Redirection::Pipe => true, _ => false };
+        assert!(is_pipe, "C16/clone-equivalent: the clone lost the stdout setting");
+        // edit the original: the clone must not change
+        let y: u8 = kani::any();
+        kani::assume(y != 0);
+        let e2 = e.arg(one(y)).env(one(b'B'), one(b'z')).env_remove(one(b'A'));
+        assert!(c.args.len() == 1, "C16/clone-independent: editing the original changed the clone's arguments");
+        assert!(effective(&c.config.env, b'B', None) == Some(v) && effective(&c.config.env, b'A', Some(b'0')) == Some(b'0'), "C16/clone-independent: editing the original changed the clone's environment");
+        std::mem::forget((e2, c));
+    }
+
+    pub fn any_out_redirection(k: u8) -> Redirection {
+        match k {
+            0 => Redirection::None,
+            1 => Redirection::Pipe,
+            _ => Redirection::Merge,
+        }
+    }
+
+    /// first settings and the idempotent Pipe-after-Pipe are accepted and stored
+    #[kani::proof]
+    fn h_set_once_ok() {
+        let k: u8 = kani::any();
+        kani::assume(k < 3);
+        let e = Exec::cmd("c").stdout(any_out_redirection(k));
+        let ok = match (&e.config.stdout, k) {
+            (Redirection::None, 0) | (Redirection::Pipe, 1) | (Redirection::Merge, 2) => true,
+            _ => false,
+        };
+        assert!(ok, "C16/first-setting-stored: the first setting of a stream is not what was requested");
+        let e = Exec::cmd("c").stderr(Redirection::Pipe).stderr(Redirection::Pipe).stdin(Redirection::Pipe).stdin(Redirection::Pipe);
+        let ok2 = match (&e.config.stderr, &e.config.stdin) {
+            (Redirection::Pipe, Redirection::Pipe) => true,
+            _ => false,
+        };
+        assert!(ok2, "C16/pipe-twice-idempotent: requesting a pipe twice is not accepted as the same setting");
+        std::mem::forget(e);
+    }
+
+    /// a second, different setting must be refused loudly: this harness runs only
+    /// the refused combinations and MUST end in the builder's panic
+    pub fn set_twice(which: u8, first: u8, second: u8) {
+        let e = Exec::cmd("c");
+        let e = match which {
+            0 => e.stdout(any_out_redirection(first)).stdout(any_out_redirection(second)),
+            _ => e.stderr(any_out_redirection(first)).stderr(any_out_redirection(second)),
+        };
+        std::mem::forget(e);
+    }
+
+    #[kani::proof]
+    fn h_set_twice_panics() {
+        let which: u8 = kani::any();
+        let first: u8 = kani::any();
+        let second: u8 = kani::any();
+        kani::assume(which < 2 && first >= 1 && first < 3 && second < 3);
+        // allowed second settings: only Pipe after Pipe
+        kani::assume(!(first == 1 && second == 1));
+        set_twice(which, first, second);
+        // reaching this point means the second setting was accepted
+        assert!(false, "C16/second-setting-refused: a second, different setting of an output stream was accepted silently");
+    }
+
+    /// input data given to a terminator that cannot deliver it must be refused
+    #[kani::proof]
+    fn h_stdin_data_refused() {
+        let e = Exec::cmd("c").stdin("data");
+        let has = e.stdin_data.is_some();
+        assert!(has, "C16/stdin-data-kept: input data given to stdin() is not recorded");
+        let which: u8 = kani::any();
+        kani::assume(which < 2);
+        if which == 0 {
+            e.check_no_stdin_data("popen");
+        } else {
+            e.check_no_stdin_data("join");
+        }
+        assert!(false, "C16/stdin-data-refused: a terminator that cannot deliver input data accepted it silently");
+    }
 }
